@@ -5,7 +5,7 @@
    LinearOperator.__getitem__ and the per-class index arithmetic of _get_indices / _getitem. *)
 From Coq Require Import List ZArith Bool Arith Lia.
 Import ListNotations.
-Require Import C03.Model C03.Proofs C03.ProofsSlice C03.ProofsSize C03.ProofsClass C03.ProofsCat C03.ProofsDiag C03.ProofsFront C03.ProofsGather.
+Require Import C03.Model C03.Proofs C03.ProofsSlice C03.ProofsSize C03.ProofsClass C03.ProofsCat C03.ProofsDiag C03.ProofsFront C03.ProofsFront2 C03.ProofsGather.
 Open Scope Z_scope.
 
 (* ===================================================================================== *)
@@ -65,6 +65,19 @@ Theorem C03_getitem_basic_fixed : forall t idx index r,
   torch_index t idx = Some r ->
   getitem_model Fixed false t idx = Some r.
 Proof. exact getitem_fixed_basic. Qed.
+
+(* THE WHOLE NON-ABSORBED PATH with ints / slices in the two matrix positions: the batch positions may in addition carry
+   tensor indices — any number, any rank, mutually broadcasting, adjacent (block stays in place) or separated by slices
+   (block moves to the front), ints in between transparent — every rank >= 2: the repaired __getitem__ returns exactly
+   the torch result (the unit slices that replace matrix ints add trailing dimensions only, never move the block) *)
+Theorem C03_getitem_matrix_basic_fixed : forall t idx index r,
+  (2 <= length (tshape t))%nat ->
+  spec_expand (length (tshape t)) idx = Some index ->
+  basic (nth (length (tshape t) - 2) index full) = true ->
+  basic (nth (length (tshape t) - 1) index full) = true ->
+  torch_index t idx = Some r ->
+  getitem_model Fixed false t idx = Some r.
+Proof. exact getitem_fixed_matrix_basic. Qed.
 
 (* the pinned __getitem__ does so whenever neither the row nor the column index is the int -1 *)
 Theorem C03_getitem_basic_pinned_partial : forall t idx index r,
@@ -246,6 +259,15 @@ Example C03_ex_front : (* x[-1, 1::2] and x[..., 0] on a 2 x 3 x 4 tensor satisf
      forallb basic index = true /\ torch_index t [RItem (IInt (-1)); RItem (ISlice (Some 1) None (Some 2))] = Some r /\ tshape r = [1; 4]%nat) /\
   getitem_model Fixed true t [REllipsis; RItem (IInt 0)] = Some (mkT [2;3]%nat [0;4;8;12;16;20]).
 Proof. vm_compute. split; [eexists; eexists; repeat split; reflexivity|reflexivity]. Qed.
+
+Example C03_ex_front_batch_tensor : (* x[[1,0], :, -1] on a 2 x 3 x 4 tensor: hypotheses of C03_getitem_matrix_basic_fixed hold *)
+  let t := mkT [2;3;4]%nat (map Z.of_nat (seq 0 24)) in
+  let idx := [RList [1;0]; RItem full; RItem (IInt (-1))] in
+  (exists index, spec_expand 3 idx = Some index /\ basic (nth 1 index full) = true /\ basic (nth 2 index full) = true) /\
+  torch_index t idx = Some (mkT [2;3]%nat [15;19;23;3;7;11]) /\
+  getitem_model Fixed true t idx = Some (mkT [2;3]%nat [15;19;23;3;7;11]) /\
+  getitem_model Pinned false t idx = Some (mkT [2;3;0]%nat []).
+Proof. vm_compute. repeat split; try reflexivity. eexists. repeat split; reflexivity. Qed.
 
 Example C03_ex_gather : (* x[[0,1],[2,0]] on a 2 x 3 matrix *)
   gather (mkT [2;3]%nat [10;11;12;13;14;15]) [([2]%nat, [0;1]); ([2]%nat, [2;0])] = Some (mkT [2]%nat [12;13]).
